@@ -10,6 +10,8 @@ import (
 	"fmt"
 	"reflect"
 	"runtime"
+	"sort"
+	"strings"
 	"sync"
 )
 
@@ -43,10 +45,12 @@ type selCase struct {
 type thread struct {
 	id      int
 	family  int
-	private bool // the pending operation touches only objects private to this family
+	private bool   // the pending operation touches only objects private to this family
 	cid     uint64 // canonical identity: derived from the spawn path, not from timing
 	nspawn  uint64
 	nchan   uint64
+	nobj    uint64
+	pos     uint64
 	wake    chan struct{}
 	op      opKind
 	ch      *chanModel
@@ -118,6 +122,8 @@ type Sched struct {
 	localOpt bool
 	prefill  int
 	families bool
+	objIDs   map[uintptr]uint64 // canonical identity of pooled objects (state keys)
+	objPins  []any
 }
 
 var (
@@ -229,6 +235,9 @@ func cur() (*Sched, *thread) {
 	if s == nil {
 		return nil, nil
 	}
+	// program position of the thread in terms of modelled operations, counted whether or
+	// not the operation becomes a scheduling point (local operations are skipped as points)
+	s.cur.pos++
 	return s, s.cur
 }
 
@@ -1096,19 +1105,26 @@ func (p *PoolModel) Get() any {
 		if len(p.items) > 0 && p.New != nil {
 			// environment answer: recycled object (default) or a fresh one
 			if s.choose(2, false, "pool") == 1 {
-				s.observe(t, "pool-new", true)
-				return p.New()
+				v := p.New()
+				t.obsHash = mix(t.obsHash, s.objID(v, t))
+				return v
 			}
-			s.observe(t, "pool-recycled", true)
 		}
 	}
 	if n := len(p.items); n > 0 {
 		v := p.items[n-1]
 		p.items = p.items[:n-1]
+		if s != nil {
+			t.obsHash = mix(t.obsHash, s.objID(v, t)^0x5ec)
+		}
 		return v
 	}
 	if p.New != nil {
-		return p.New()
+		v := p.New()
+		if s != nil {
+			t.obsHash = mix(t.obsHash, s.objID(v, t))
+		}
+		return v
 	}
 	return nil
 }
@@ -1129,6 +1145,35 @@ func (p *PoolModel) Put(v any) {
 		t.private = !p.fam.shared
 		s.point(t)
 	}
+}
+
+// objID gives a pooled object an identity that does not depend on addresses or timing:
+// (thread that first handled it, that thread's object counter).
+func (s *Sched) objID(v any, t *thread) uint64 {
+	rv := reflect.ValueOf(v)
+	var p uintptr
+	switch rv.Kind() {
+	case reflect.Slice, reflect.Ptr, reflect.Map, reflect.Chan, reflect.UnsafePointer, reflect.Func:
+		p = rv.Pointer()
+	}
+	if p == 0 {
+		return 1
+	}
+	if s.objIDs == nil {
+		s.objIDs = map[uintptr]uint64{}
+	}
+	id, ok := s.objIDs[p]
+	if !ok {
+		var tc uint64
+		if t != nil {
+			t.nobj++
+			tc = mix(t.cid^0x0b1ec7, t.nobj)
+		}
+		id = tc
+		s.objIDs[p] = id
+		s.objPins = append(s.objPins, v) // keep it alive: its address must not be reused
+	}
+	return id
 }
 
 // AtomicPoint is the scheduling point before an atomic operation.
@@ -1194,6 +1239,7 @@ func CurrentKey(extra func(add func(uint64))) uint64 {
 	var sum uint64
 	for _, t := range s.threads {
 		h := mix(t.cid, t.events)
+		h = mix(h, t.pos)
 		h = mix(h, uint64(t.op))
 		if t.done {
 			h = mix(h, 0xdead)
@@ -1205,7 +1251,11 @@ func CurrentKey(extra func(add func(uint64))) uint64 {
 		sum += h
 	}
 	for _, p := range s.pools {
-		sum += mix(p.cid, uint64(len(p.items)))
+		h := mix(p.cid, uint64(len(p.items)))
+		for _, v := range p.items {
+			h = mix(h, s.objID(v, s.cur)) // in order: Get takes the most recent one
+		}
+		sum += h
 	}
 	for _, c := range s.chans {
 		h := mix(c.cid, uint64(len(c.buf)))
@@ -1225,4 +1275,49 @@ func CurrentKey(extra func(add func(uint64))) uint64 {
 		sum += h
 	}
 	return sum
+}
+
+// DescribeState renders the components of CurrentKey (debugging state-key soundness).
+func DescribeState() string {
+	s := active
+	if s == nil {
+		return ""
+	}
+	var out []string
+	for _, t := range s.threads {
+		out = append(out, fmt.Sprintf("T%d cid=%x pos=%d ev=%d op=%d done=%v handed=%v obs=%x", t.id, t.cid&0xffff, t.pos, t.events, t.op, t.done, t.handed, t.obsHash&0xffffff))
+	}
+	for _, c := range s.chans {
+		d := ""
+		if s.digest != nil {
+			for _, v := range c.buf {
+				d += fmt.Sprintf("%x,", s.digest(v)&0xffff)
+			}
+		}
+		out = append(out, fmt.Sprintf("C cid=%x len=%d closed=%v [%s]", c.cid&0xffff, len(c.buf), c.closed, d))
+	}
+	for _, p := range s.pools {
+		d := ""
+		for _, v := range p.items {
+			d += fmt.Sprintf("%x,", s.objID(v, s.cur)&0xffff)
+		}
+		out = append(out, fmt.Sprintf("P cid=%x [%s]", p.cid&0xffff, d))
+	}
+	sort.Strings(out)
+	return strings.Join(out, "\n")
+}
+
+// LiveOthers counts managed threads other than the caller that have not finished.
+func LiveOthers() int {
+	s := active
+	if s == nil {
+		return 0
+	}
+	n := 0
+	for _, t := range s.threads {
+		if t != s.cur && !t.done {
+			n++
+		}
+	}
+	return n
 }
